@@ -106,17 +106,63 @@ theorem cntO_map_filter (x : Nat) (p : Nat → Bool) (f : Nat → Act) (g : Nat 
       · subst hx; simp [hp]
       · simp [hx]
 
-theorem cntW_buildActs (c : Cfg) (x : Nat) (l : List Nat) : cntW x (buildActs c l) = l.count x := by
+/-! ### the order in which an awaited suspend point resumes its handles is a permutation of the collected ones -/
+
+theorem awaitOrder_perm (l : List Nat) : (awaitOrder l).Perm l := by
+  unfold awaitOrder
+  cases h : l.getLast? with
+  | none =>
+    have : l = [] := List.getLast?_eq_none_iff.mp h
+    subst this; exact List.Perm.refl _
+  | some x =>
+    obtain ⟨ys, e⟩ := List.getLast?_eq_some_iff.mp h
+    subst e
+    show (x :: (ys ++ [x]).dropLast).Perm (ys ++ [x])
+    rw [List.dropLast_concat]
+    exact (List.perm_append_singleton x ys).symm
+
+/-- `h1 … hk, y` awaited: `y` first, then `h1 … hk` -/
+theorem awaitOrder_snoc (r : List Nat) (y : Nat) : awaitOrder (r ++ [y]) = y :: r := by
+  unfold awaitOrder
+  simp
+
+theorem resumeOrder_perm (c : Cfg) (t : Nat) (l : List Nat) : (resumeOrder c t l).Perm l := by
+  unfold resumeOrder
+  split
+  · exact awaitOrder_perm l
+  · exact List.Perm.refl _
+
+theorem resumeOrder_mem (c : Cfg) (t : Nat) (l : List Nat) (x : Nat) : x ∈ resumeOrder c t l ↔ x ∈ l :=
+  (resumeOrder_perm c t l).mem_iff
+
+theorem cntW_wake_perm (x : Nat) {l1 l2 : List Nat} (h : l1.Perm l2) :
+    cntW x (l1.map Act.wake) = cntW x (l2.map Act.wake) := by
+  induction h with
+  | nil => rfl
+  | cons a _ ih => simp [ih]
+  | swap a b l => simp; omega
+  | trans _ _ ih1 ih2 => exact ih1.trans ih2
+
+theorem cntO_wake_perm (x : Nat) {l1 l2 : List Nat} (h : l1.Perm l2) :
+    cntO x (l1.map Act.wake) = cntO x (l2.map Act.wake) := by
+  induction h with
+  | nil => rfl
+  | cons a _ ih => simp [ih]
+  | swap a b l => simp; omega
+  | trans _ _ ih1 ih2 => exact ih1.trans ih2
+
+theorem cntW_buildActs (c : Cfg) (t x : Nat) (l : List Nat) : cntW x (buildActs c t l) = l.count x := by
   unfold buildActs
-  rw [cntW_append, cntW_map_filter, cntW_map_filter]
+  rw [cntW_append, cntW_wake_perm x (resumeOrder_perm c t _), cntW_map_filter, cntW_map_filter]
   · by_cases h1 : wkOf c x = WK.sync <;> by_cases h2 : wkOf c x = WK.cb <;> simp [h1, h2]
   · intro y r; rfl
   · intro y r; split <;> rfl
 
-theorem cntO_buildActs (c : Cfg) (x : Nat) (l : List Nat) :
-    cntO x (buildActs c l) = if wkOf c x = WK.sync then 0 else l.count x := by
+theorem cntO_buildActs (c : Cfg) (t x : Nat) (l : List Nat) :
+    cntO x (buildActs c t l) = if wkOf c x = WK.sync then 0 else l.count x := by
   unfold buildActs
-  rw [cntO_append, cntO_map_filter (g := fun y => wkOf c y ≠ WK.sync), cntO_map_filter (g := fun _ => true)]
+  rw [cntO_append, cntO_wake_perm x (resumeOrder_perm c t _),
+    cntO_map_filter (g := fun y => wkOf c y ≠ WK.sync), cntO_map_filter (g := fun _ => true)]
   · by_cases h1 : wkOf c x = WK.sync <;> by_cases h2 : wkOf c x = WK.cb <;> simp [h1, h2]
   · intro y r; simp
   · intro y r; by_cases h1 : wkOf c y = WK.sync <;> simp [h1]
@@ -416,9 +462,9 @@ end
 section
 variable (c : Cfg) (s : State) (t : Nat)
 
-theorem actOK_buildActs (l : List Nat) : ∀ a ∈ buildActs c l, ActOK c a := by
+theorem actOK_buildActs (l : List Nat) : ∀ a ∈ buildActs c t l, ActOK c a := by
   intro a ha
-  simp only [buildActs, List.mem_append, List.mem_map, List.mem_filter] at ha
+  simp only [buildActs, List.mem_append, List.mem_map, resumeOrder_mem, List.mem_filter] at ha
   rcases ha with ⟨x, ⟨_, hx⟩, rfl⟩ | ⟨x, ⟨_, hx⟩, rfl⟩
   · by_cases h1 : wkOf c x = WK.sync <;> simp [h1, ActOK]
   · simp only [decide_not, Bool.not_eq_eq_eq_not, Bool.not_true, decide_eq_false_iff_not, not_or] at hx
@@ -426,11 +472,11 @@ theorem actOK_buildActs (l : List Nat) : ∀ a ∈ buildActs c l, ActOK c a := b
     simp [ActOK, this.1]
 
 theorem inv_rResolve (h : Inv c s) (dt : Bool) (l : List Nat) (hpc : s.pc t = Pc.rResolve dt) (hs : s.slot = Slot.chain l) :
-    Inv c { setPc s t (Pc.rRun dt (buildActs c l)) with payload := winPayload c t, slot := Slot.ready } := by
-  have hA := (actsOK_iff c _).2 (actOK_buildActs c l)
-  have hW := fun x => cntW_buildActs c x l
-  have hO := fun x => cntO_buildActs c x l
-  generalize buildActs c l = acts at *
+    Inv c { setPc s t (Pc.rRun dt (buildActs c t l)) with payload := winPayload c t, slot := Slot.ready } := by
+  have hA := (actsOK_iff c _).2 (actOK_buildActs c t l)
+  have hW := fun x => cntW_buildActs c t x l
+  have hO := fun x => cntO_buildActs c t x l
+  generalize buildActs c t l = acts at *
   inv_tac h
 
 end
